@@ -43,6 +43,19 @@ def make_cases(ctx, comps, klass="sa", plan=None):
                 else:
                     v, src = repo_generator_game(rng, max(n, 3) if n >= 3 else 3, SA_GENS) if n >= 3 else (games.sa_closure_game(rng, n, "float"), "closure-float")
                     stream = "float"
+            elif klass == "arbitrary":
+                # any value table (not necessarily superadditive): integers, small-range integers with many ties, dyadics
+                if r < 0.4:
+                    v = [0] + [rng.randint(-20, 20) for _ in range(2 ** n - 1)]
+                    src = "arbitrary-int"
+                elif r < 0.7:
+                    v = [0] + [rng.randint(0, 2) for _ in range(2 ** n - 1)]
+                    src = "arbitrary-small-int"
+                else:
+                    from fractions import Fraction
+                    v = [Fraction(0)] + [Fraction(rng.randint(-64, 64), 8) for _ in range(2 ** n - 1)]
+                    src = "arbitrary-dyadic"
+                stream = "exact"
             else:
                 if r < 0.45:
                     v, src, stream = games.sam_game(rng, n, "int"), "sam-int", "exact"
@@ -147,53 +160,108 @@ def report_mismatches(ctx, mismatches, oracles, relation):
 
 
 # ---------------------------------------------------------------- histories
-def random_history(rng, n, v, comp, length):
-    """A history of reveal / un-reveal / bulk reset / compute that keeps the minimal information known
-    whenever it computes; ops carry true values of v."""
+def random_history(rng, n, v, comp, length, alt=None):
+    """A history of reveal / un-reveal / set / unset / bulk set / bulk reset / compute that keeps the minimal
+    information known whenever it computes. Ops carry the true values of v; with `alt` (a second value table, C08 only)
+    a coalition may also come back with a different value. Besides independent random ops the generator inserts the
+    motifs that return to an earlier knowledge set or change knowledge without changing the known *set* between two
+    computes (reveal+un-reveal, un-reveal+re-reveal, overwrite, bulk set), which is where caches keyed on part of the
+    knowledge go stale. Returns (ops, sorted known ids, dict id -> current known value)."""
     ops = []
-    known = {0}
+    cur = {0: v[0]}
     minimal = games.minimal_ids(n)
     opt = games.optional_ids(n)
+
+    def val(i):
+        return alt[i] if (alt is not None and rng.random() < 0.5) else v[i]
 
     def reset(extra):
         K = sorted(set(minimal) | set(extra))
         ops.append(("known_some", K, [v[i] for i in K]))
-        known.clear()
-        known.update(K)
+        cur.clear()
+        cur.update({i: v[i] for i in K})
+
+    def reveal(i):
+        x = val(i)
+        ops.append(("reveal", i, x))
+        cur[i] = x
+
+    def unreveal(i):
+        ops.append(("unreveal", i))
+        cur.pop(i, None)
+
+    def compute():
+        ops.append(("compute", comp))
+
     reset(rng.sample(opt, rng.randint(0, len(opt))) if opt else [])
-    for _ in range(length):
+    steps = 0
+    while steps < length:
+        steps += 1
         r = rng.random()
-        unknown = [i for i in opt if i not in known]
-        revealed = [i for i in opt if i in known]
-        if r < 0.35 and unknown:
-            i = rng.choice(unknown)
-            ops.append(("reveal", i, v[i]))
-            known.add(i)
-        elif r < 0.6 and revealed:
-            i = rng.choice(revealed)
-            ops.append(("unreveal", i))
-            known.discard(i)
-        elif r < 0.7:
+        unknown = [i for i in opt if i not in cur]
+        revealed = [i for i in opt if i in cur]
+        if r < 0.25 and unknown:
+            reveal(rng.choice(unknown))
+        elif r < 0.42 and revealed:
+            unreveal(rng.choice(revealed))
+        elif r < 0.50:
             reset(rng.sample(opt, rng.randint(0, len(opt))) if opt else [])
+        elif r < 0.56 and opt:
+            i = rng.choice(opt)                     # set_value on a known or unknown coalition
+            x = val(i)
+            ops.append(("set", i, x))
+            cur[i] = x
+        elif r < 0.60 and revealed:
+            i = rng.choice(revealed)
+            ops.append(("unset", i))
+            cur.pop(i, None)
+        elif r < 0.66 and opt:
+            ids = sorted(rng.sample(opt, rng.randint(1, min(4, len(opt)))))   # bulk set_values on some coalitions
+            xs = [val(i) for i in ids]
+            ops.append(("values_some", ids, xs))
+            cur.update(dict(zip(ids, xs)))
+        elif r < 0.72 and unknown:
+            i = rng.choice(unknown)                 # motif: compute, reveal, un-reveal, compute
+            compute(); reveal(i)
+            if rng.random() < 0.5:
+                compute()
+            unreveal(i); compute()
+            steps += 3
+        elif r < 0.78 and revealed:
+            i = rng.choice(revealed)                # motif: compute, un-reveal, re-reveal, compute
+            compute(); unreveal(i)
+            if rng.random() < 0.3:
+                compute()
+            reveal(i); compute()
+            steps += 3
+        elif r < 0.82 and opt:
+            ids = sorted(rng.sample(opt, rng.randint(1, min(3, len(opt)))))   # motif: compute, bulk set, compute
+            xs = [val(i) for i in ids]
+            compute(); ops.append(("values_some", ids, xs)); cur.update(dict(zip(ids, xs))); compute()
+            steps += 2
         else:
-            ops.append(("compute", comp))
-    ops.append(("compute", comp))
-    return ops, sorted(known)
+            compute()
+    compute()
+    return ops, sorted(cur), dict(cur)
 
 
-def run_histories(ctx, comps, klass, plan, oracles):
-    """plan: list of (n, count, length)."""
+def run_histories(ctx, comps, klass, plan, oracles, alt=False, fresh_check=False):
+    """plan: list of (n, count, length). The oracles are evaluated on the implementation's table after EVERY compute
+    of the history (with the knowledge at that moment), not only at the end. alt: coalitions may come back with values
+    of a second game (C08: the table is a function of the known values, not only of the known set). fresh_check: after
+    every compute the table must equal what a fresh object with the same known values computes (C08's statement)."""
     rng = ctx.rng
     hs = []
     for (n, count, length) in plan:
         for _ in range(count):
-            if klass == "sa":
-                kind = rng.choice(["int", "dyadic"])
-                v = games.sa_closure_game(rng, n, kind)
-            else:
-                v = games.sam_game(rng, n, rng.choice(["int", "dyadic"]))
+            def draw():
+                if klass == "sa":
+                    return games.sa_closure_game(rng, n, rng.choice(["int", "dyadic"]))
+                return games.sam_game(rng, n, rng.choice(["int", "dyadic"]))
+            v = draw()
+            v2 = draw() if alt else None
             comp = rng.choice(comps)
-            ops, K = random_history(rng, n, v, comp, rng.randint(1, length))
+            ops, K, cur = random_history(rng, n, v, comp, rng.randint(1, length), v2)
             hs.append((n, v, comp, ops, K))
     outs = run_driver_parallel([opslib.ops_line(n, ops) for (n, v, comp, ops, K) in hs])
     mismatches = []
@@ -202,7 +270,7 @@ def run_histories(ctx, comps, klass, plan, oracles):
         ctx.count("history_length", len(ops))
         for o in ops:
             ctx.count("op", o[0])
-        impl_res, g = opslib.run_impl_history(n, ops)
+        impl_res, g = opslib.run_impl_history(n, ops, comp)
         model_res = opslib.parse_ops_output(out, n)
         d = opslib.compare_history(impl_res, model_res, exact=True)
         c = {"comp": comp, "n": n, "v": v, "K": K, "stale": None, "stream": "exact", "src": "history"}
@@ -211,11 +279,29 @@ def run_histories(ctx, comps, klass, plan, oracles):
         final = impl_res[-1][1]
         if any((not k) and lo != hi for k, lo, hi in final):
             ctx.nontrivial.add(("hist", comp, n, tuple(K), tuple(map(float, v))))
-        for name, fn in oracles:
-            fails = fn(c, final)
-            if fails:
-                ctx.violation(f"{name} fails on the implementation after a history: {fails[:3]}",
-                              {"kind": "history", "case": case_json(c), "ops": [list(map(str, o)) for o in ops],
-                               "failures": str(fails[:5])})
+        reported = False
+        for step, (o, (st, tab)) in enumerate(zip(ops, impl_res)):
+            if o[0] != "compute" or st != "ok" or reported:
+                continue
+            Know = [i for i, (k, lo, hi) in enumerate(tab) if k]
+            cs = dict(c, K=Know)
+            for name, fn in oracles:
+                fails = fn(cs, tab)
+                if fails:
+                    ctx.violation(f"{name} fails on the implementation after step {step} of a history: {fails[:3]}",
+                                  {"kind": "history", "case": case_json(cs), "ops": [list(map(str, x)) for x in ops[:step + 1]],
+                                   "failures": str(fails[:5])})
+                    reported = True
+            if fresh_check and not reported:
+                vals = [tab[i][1] if tab[i][0] else 0 for i in range(2 ** n)]
+                st2, fresh = bl.impl_compute(comp, n, vals, Know, None)
+                ctx.count("fresh_checks", comp)
+                diff = [(i, tab[i], fresh[i]) for i in range(2 ** n) if tuple(tab[i]) != tuple(fresh[i])] if st2 == "ok" else []
+                if diff:
+                    ctx.violation(f"after step {step} of a history the table differs from what a fresh game with the same known "
+                                  f"values computes ({comp}): coalition {diff[0][0]} has {diff[0][1]}, fresh {diff[0][2]}",
+                                  {"kind": "history-fresh", "comp": comp, "n": n, "ops": [list(map(str, x)) for x in ops[:step + 1]],
+                                   "known_values": {i: str(vals[i]) for i in Know}, "table": str(tab), "fresh_table": str(fresh)})
+                    reported = True
         ctx.sample({"history": [list(map(str, o))[:4] for o in ops][:8], "n": n, "computer": comp}, limit=5)
     return mismatches
